@@ -13,6 +13,7 @@ from the call's argument operands, `return` becomes `dst = move _ret; goto <call
 (closures) stay separate bodies - their `parent` still names the callee, whose own facts remain available.
 """
 import copy
+import json
 import glob
 import os
 import re
@@ -971,6 +972,174 @@ def thread_jumps(b, rounds=4):
     return changed_any
 
 
+def _split_tuple_ty(ty):
+    """'(u64, &[u8])' -> ['u64', '&[u8]'] (top-level commas only); None when `ty` is not a tuple of 2..4 fields"""
+    ty = ty.strip()
+    if not (ty.startswith('(') and ty.endswith(')')) or ty == '()':
+        return None
+    parts, depth, cur = [], 0, ''
+    for ch in ty[1:-1]:
+        if ch in '(<[{':
+            depth += 1
+        elif ch in ')>]}':
+            depth -= 1
+        if ch == ',' and depth == 0:
+            parts.append(cur.strip())
+            cur = ''
+        else:
+            cur += ch
+    if cur.strip():
+        parts.append(cur.strip())
+    return parts if 2 <= len(parts) <= 4 else None
+
+
+def sroa_tuples(b):
+    """Scalar replacement of tuple temporaries: a tuple-typed local that is only ever built whole (`t = (x, y)`), moved whole
+    into another such local and read field by field becomes one local per field.  `fold((0, 0), |(a, b), x| (a + .., b + ..))`
+    after fusion is then the two-accumulator loop it stands for."""
+    cand = {}
+    for i, l in enumerate(b.locals):
+        if i <= b.argc:
+            continue
+        parts = _split_tuple_ty(l['ty'])
+        if parts:
+            cand[i] = parts
+    if not cand:
+        return False
+    bad = set()
+    parent = {i: i for i in cand}
+
+    def find(x):
+        while parent[x] != x:
+            parent[x] = parent[parent[x]]
+            x = parent[x]
+        return x
+
+    def whole(op):
+        return op['k'] != 'const' and not op['p']['proj'] and op['p']['l'] in cand
+
+    def field_first(pl):
+        return bool(pl['proj']) and isinstance(pl['proj'][0], dict) and 'f' in pl['proj'][0]
+
+    def visit_place_read(pl):
+        if pl['l'] in cand and not field_first(pl):
+            bad.add(pl['l'])
+        for e in pl['proj']:
+            if isinstance(e, dict) and 'idx' in e and e['idx'] in cand:
+                bad.add(e['idx'])
+
+    def visit_op(op):
+        if op['k'] != 'const':
+            visit_place_read(op['p'])
+    for blk in b.blocks:
+        for st in blk['stmts']:
+            d, rv = st['dst'], st['rv']
+            if d['l'] in cand and not d['proj']:
+                if rv['k'] == 'agg' and rv.get('ak') == 'tuple' and len(rv['ops']) == len(cand[d['l']]):
+                    for o in rv['ops']:
+                        visit_op(o)
+                    continue
+                if rv['k'] == 'use' and whole(rv['ops'][0]) and cand[rv['ops'][0]['p']['l']] == cand[d['l']]:
+                    x, y = find(d['l']), find(rv['ops'][0]['p']['l'])
+                    parent[x] = y
+                    continue
+                bad.add(d['l'])
+            elif d['l'] in cand and not field_first(d):
+                bad.add(d['l'])
+            for e in d['proj']:
+                if isinstance(e, dict) and 'idx' in e and e['idx'] in cand:
+                    bad.add(e['idx'])
+            if rv['k'] in ('ref', 'discr', 'rawptr', 'len'):
+                if 'p' in rv:
+                    visit_place_read(rv['p'])
+            for o in rv.get('ops', []):
+                visit_op(o)
+        t = blk['term']
+        if t is None:
+            continue
+        for key in ('args',):
+            for o in t.get(key, []) or []:
+                visit_op(o)
+        for key in ('on', 'cond', 'func'):
+            if isinstance(t.get(key), dict) and 'k' in t[key]:
+                visit_op(t[key])
+        if isinstance(t.get('dst'), dict) and t['dst'].get('l') in cand and not field_first(t['dst']):
+            bad.add(t['dst']['l'])
+        if isinstance(t.get('p'), dict) and t['p'].get('l') in cand:
+            bad.add(t['p']['l'])
+        if t['k'] == 'assert':
+            txt = json.dumps(t)
+            for i in cand:
+                if ('"l": %d,' % i) in txt or ('"l": %d}' % i) in txt:
+                    if not (isinstance(t.get('cond'), dict) and t['cond'].get('k') != 'const' and t['cond']['p']['l'] == i and field_first(t['cond']['p'])):
+                        bad.add(i)
+    badroots = {find(i) for i in bad}
+    split = {i for i in cand if find(i) not in badroots}
+    # a group must have at least one whole tuple construction to be worth splitting
+    built = set()
+    for blk in b.blocks:
+        for st in blk['stmts']:
+            if st['dst']['l'] in split and not st['dst']['proj'] and st['rv']['k'] == 'agg':
+                built.add(find(st['dst']['l']))
+    split = {i for i in split if find(i) in built}
+    if not split:
+        return False
+    newl = {}
+    for i in sorted(split):
+        newl[i] = []
+        for k, ty in enumerate(cand[i]):
+            b.locals.append({'ty': ty, 'name': '%s.%d' % (b.locals[i].get('name') or '_%d' % i, k), 'user': False})
+            newl[i].append(len(b.locals) - 1)
+
+    def rw_place(pl):
+        if pl['l'] in split and field_first(pl):
+            k = pl['proj'][0]['f']
+            return {'l': newl[pl['l']][k], 'proj': list(pl['proj'][1:])}
+        return pl
+
+    def rw_op(op):
+        if op['k'] == 'const':
+            return op
+        return dict(op, p=rw_place(op['p']))
+    for blk in b.blocks:
+        out = []
+        for st in blk['stmts']:
+            d, rv = st['dst'], st['rv']
+            if d['l'] in split and not d['proj']:
+                if rv['k'] == 'agg':
+                    for k, o in enumerate(rv['ops']):
+                        out.append(dict(st, dst={'l': newl[d['l']][k], 'proj': []}, rv={'k': 'use', 'ops': [rw_op(o)]}))
+                else:
+                    srcl = rv['ops'][0]['p']['l']
+                    for k in range(len(cand[d['l']])):
+                        out.append(dict(st, dst={'l': newl[d['l']][k], 'proj': []},
+                                        rv={'k': 'use', 'ops': [{'k': rv['ops'][0]['k'], 'p': {'l': newl[srcl][k], 'proj': []}}]}))
+                continue
+            st = dict(st, dst=rw_place(d))
+            rv = dict(rv)
+            if 'ops' in rv:
+                rv['ops'] = [rw_op(o) for o in rv['ops']]
+            if 'p' in rv and isinstance(rv['p'], dict):
+                rv['p'] = rw_place(rv['p'])
+            st['rv'] = rv
+            out.append(st)
+        blk['stmts'] = out
+        t = blk['term']
+        if t is None:
+            continue
+        t = dict(t)
+        if t.get('args'):
+            t['args'] = [rw_op(o) for o in t['args']]
+        for key in ('on', 'cond', 'func'):
+            if isinstance(t.get(key), dict) and 'k' in t[key]:
+                t[key] = rw_op(t[key])
+        if isinstance(t.get('dst'), dict) and 'l' in t['dst']:
+            t['dst'] = rw_place(t['dst'])
+        blk['term'] = t
+    b._cfg_cache = None
+    return True
+
+
 def _plain_delegation_target(F, c, sites):
     """`impl TryFrom<u8> for T { fn try_from(..) {..} }` + `fn from_u8(v) -> .. { T::try_from(v) }`: the trait method of a std
     conversion trait (From / TryFrom / FromStr / Default) whose only callers are crate functions of the same type's module"""
@@ -1054,6 +1223,7 @@ def apply(F, log=None):
             break
     for p_ in sorted({p for _, p in done}):
         if p_ in F.bodies:
+            sroa_tuples(F.bodies[p_])
             thread_jumps(F.bodies[p_])
     if done:
         # flows / CFGs computed while selecting (semantic anchors) describe the bodies before the splice
